@@ -145,7 +145,7 @@ func main() {
 			res.Eval(fmt.Sprintf("replay%d", i), true)
 			if d, known, extra := describe(cr); d != "" {
 				fmt.Println("replay fails:", d)
-				res.ViolateKnown(d, sc, known, extra)
+				res.ViolateWith(d, sc, known, extra)
 				return
 			}
 		}
@@ -169,7 +169,7 @@ func main() {
 				res.Eval("corpus/"+filepath.Base(f), cr.out != nil && cr.out.Nontrivial)
 				res.Count("corpus_runs", 1)
 				if d, known, extra := describe(cr); d != "" {
-					res.ViolateKnown("corpus "+filepath.Base(f)+": "+d, sc, known, extra)
+					res.ViolateWith("corpus "+filepath.Base(f)+": "+d, sc, known, extra)
 					break
 				}
 			}
@@ -235,7 +235,7 @@ func main() {
 					if known != "" {
 						res.Count("known_finding_"+known, 1)
 					}
-					res.ViolateKnown(d, sc, known, extra)
+					res.ViolateWith(d, sc, known, extra)
 				}
 			}
 		}()
